@@ -149,7 +149,7 @@ pub fn plan(prop: &str, tier: &str) -> Option<Plan> {
     let base = |runs_q: u64, runs_t: u64, rule: &str| Plan {
         runs: if quick { runs_q } else { runs_t },
         budget_s: if quick { 240.0 } else { 2400.0 },
-        watchdog_s: 30.0,
+        watchdog_s: 60.0,
         level: "exploration",
         rule: rule.to_string(),
         real_vs_stub: real_vs_stub(),
